@@ -177,6 +177,14 @@ func msgAndResult(fi *FnInfo, fn *ssa.Function, facts []Atom, suffix string) (*T
 				if res == nil && t.K == TRes && t.Idx == 0 && ParsePat("DecodePureDKGResult(_)").Match(t.Sub[0], Binds{}) {
 					res = t
 				}
+				// the decoded result handed back by a helper of the validator
+				if res == nil && t.K == TRes && t.Idx == 0 && t.Sub[0].K == TCall && t.Sub[0].Callee != nil && inModule(t.Sub[0].Callee) {
+					if _, ok := fi.p.resolvesTo(fi, t, func(x *Term) bool {
+						return x.K == TRes && x.Idx == 0 && ParsePat("DecodePureDKGResult(_)").Match(x.Sub[0], Binds{})
+					}); ok {
+						res = t
+					}
+				}
 			})
 		}
 	}
@@ -520,14 +528,18 @@ func c04Gossip(p *Prog, c *Check, accept string) {
 	}
 	c.Floor(rule, n, 1)
 
-	// D2: the validator closure calls valFunc only on a decoded, validated message of the registered type and topic
+	// D2: the topic validator (the function that calls a handler's ValidatorFunc) calls it only on a
+	// decoded, validated message of the registered type and topic
 	rule = "C04-D2"
-	avi, err := p.Func("p2p.P2PMessaging.addValidatorImpl")
-	if !c.Must(err) {
+	if _, err := p.Func("p2p.P2PMessaging.addValidatorImpl"); !c.Must(err) {
 		return
 	}
 	nd := 0
-	for _, cl := range avi.AnonFuncs {
+	vclosures := map[*ssa.Function]bool{}
+	for _, cl := range p.Funcs {
+		if relPkg(fnPkgPath(cl)) != "p2p" || isTestScaffold(cl) {
+			continue
+		}
 		cfi := p.Info(cl)
 		for _, b := range cl.Blocks {
 			for _, in := range b.Instrs {
@@ -535,18 +547,12 @@ func c04Gossip(p *Prog, c *Check, accept string) {
 				if !ok || !IsDynamic(call) {
 					continue
 				}
-				// call through the captured valFunc
-				ld, ok := call.Common().Value.(*ssa.UnOp)
-				var fv *ssa.FreeVar
-				if ok {
-					fv, _ = ld.X.(*ssa.FreeVar)
-				} else {
-					fv, _ = call.Common().Value.(*ssa.FreeVar)
-				}
-				if fv == nil || fv.Name() != "valFunc" {
+				// call through a value of the handlers' validator function type
+				if types.TypeString(call.Common().Value.Type(), relQual) != "p2p.ValidatorFunc" {
 					continue
 				}
 				nd++
+				vclosures[cl] = true
 				c.Analysed(shortFn(cl))
 				bnd := Binds{}
 				okG := c.Guard(p, rule, "valFunc-call", call, "valFunc(ctx, unmshl)", bnd,
@@ -555,8 +561,10 @@ func c04Gossip(p *Prog, c *Check, accept string) {
 					"TypeOf(UnmarshalPubsubMessage($msg)#0) == TypeOf(_)",
 				)
 				if okG {
-					arg := cfi.T(call.Common().Args[1])
-					if !ParsePat("UnmarshalPubsubMessage($msg)#0").Match(arg, bnd) {
+					arg, okArg := p.resolvesTo(cfi, cfi.T(call.Common().Args[1]), func(t *Term) bool {
+						return ParsePat("UnmarshalPubsubMessage($msg)#0").Match(t, copyBinds(bnd))
+					})
+					if !okArg {
 						c.Fail(rule, "valFunc-arg", p.siteOf(call), shortFn(cl), "valFunc argument", "the validator is applied to something other than the decoded message: "+arg.s)
 					} else {
 						c.Ok(rule, "valFunc-arg", p.siteOf(call), shortFn(cl), "valFunc argument", arg.s)
@@ -577,49 +585,108 @@ func c04Gossip(p *Prog, c *Check, accept string) {
 	}
 	c.Floor(rule, nd, 1)
 
-	// D2c: the closure is ADDED to the topic's validators on every path (an existing validator of
+	// D2c: the validator is ADDED to the topic's validators on every path (an existing validator of
 	// another handler for the same message type must not displace or suppress it)
 	rule = "C04-D2c"
-	{
-		afi := p.Info(avi)
-		nreg := 0
-		for _, b := range avi.Blocks {
-			for _, in := range b.Instrs {
-				mu, ok := in.(*ssa.MapUpdate)
-				if !ok || !ParsePat("_.validatorRegistry").Match(afi.T(mu.Map), Binds{}) {
-					continue
+	if pm, err := p.Named("p2p.P2PMessaging"); c.Must(err) {
+		isValidator := func(f *ssa.Function, t *Term) bool {
+			if t == nil {
+				return false
+			}
+			if mc := asClosure(t.Val); mc != nil {
+				if g, ok := mc.Fn.(*ssa.Function); ok && vclosures[g] {
+					return true
 				}
-				nreg++
-				okA := false
-				why := "the topic's validator list is overwritten instead of extended"
+			}
+			// the result of a function that builds it
+			ct := t
+			if ct.K == TRes {
+				ct = ct.Sub[0]
+			}
+			if ct.K == TCall && ct.Callee != nil && inModule(ct.Callee) && ct.Callee.Blocks != nil {
+				all := true
+				for _, r := range returnsOf(ct.Callee) {
+					mc := asClosure(r.Results[0])
+					if mc == nil {
+						all = false
+						continue
+					}
+					if g, ok := mc.Fn.(*ssa.Function); !ok || !vclosures[g] {
+						all = false
+					}
+				}
+				return all
+			}
+			return false
+		}
+		nreg := 0
+		for _, w := range p.fieldWrites(pm, "validatorRegistry") {
+			if isTestScaffold(w.Fn) {
+				continue
+			}
+			fn := w.Fn
+			afi := p.Info(fn)
+			nreg++
+			okA := false
+			why := "the topic's validator list is overwritten instead of extended"
+			mu, isMU := w.Instr.(*ssa.MapUpdate)
+			if w.Kind == "store" {
+				if _, fresh := w.Val.(*ssa.MakeMap); fresh && baseAlloc(w.Instr.(*ssa.Store).Addr) != nil {
+					nreg--
+					continue // the constructor's empty registry
+				}
+				why = "the whole validator registry is replaced"
+			}
+			if isMU {
 				if call, isCall := mu.Value.(*ssa.Call); isCall {
 					if vals, isApp := appendedValues(call); isApp && len(vals) == 1 {
 						base := afi.T(call.Common().Args[0])
-						mc := asClosure(vals[0])
 						switch {
 						case !ParsePat("_.validatorRegistry[$k]").Match(base, Binds{"k": afi.T(mu.Key)}):
 							why = "the new list is not the old list of the same topic plus the validator: " + base.s
-						case mc == nil || mc.Fn.(*ssa.Function).Parent() != avi:
-							why = "the appended value is not the validator closure built here"
+						case !p.termLifted(fn, afi.T(vals[0]), 0, isValidator):
+							why = "the appended value is not the topic validator built for the handler"
 						default:
 							okA = true
 						}
 					}
 				}
 				if okA {
-					for _, r := range returnsOf(avi) {
-						if !instrDominates(mu, r) {
-							okA = false
-							why = "some path returns without registering the validator"
+					// registered on every path, here and up to the exported entry point
+					var climb func(f *ssa.Function, at ssa.Instruction, depth int) bool
+					climb = func(f *ssa.Function, at ssa.Instruction, depth int) bool {
+						for _, r := range returnsOf(f) {
+							if !instrDominates(at, r) {
+								return false
+							}
 						}
+						if depth >= 3 || f.Object() == nil || f.Object().Exported() {
+							return true
+						}
+						for _, cs := range p.CG().Callers(f) {
+							if isTestScaffold(cs.Caller) || cs.Instr.Common().IsInvoke() {
+								continue
+							}
+							if fnName(origin(cs.Caller)) == "AddValidator" {
+								continue // one registration per prototype, in a loop over the prototypes
+							}
+							if !climb(cs.Caller, cs.Instr, depth+1) {
+								return false
+							}
+						}
+						return true
+					}
+					if !climb(fn, mu, 0) {
+						okA = false
+						why = "some path returns without registering the validator"
 					}
 				}
-				if okA && !ParsePat("Topic($proto)").Match(afi.T(mu.Key), Binds{"proto": afi.T(avi.Params[2])}) {
+				if okA && !p.termLifted(fn, afi.T(mu.Key), 0, func(_ *ssa.Function, t *Term) bool { return ParsePat("Topic(_)").Match(t, Binds{}) }) {
 					okA = false
 					why = "the validator is registered under a key that is not the prototype's topic"
 				}
-				c.Result(okA, rule, "addValidatorImpl:register", p.siteOf(mu), shortFn(avi), "validatorRegistry[topic] = append(validatorRegistry[topic], validate)", why, "appended on every path")
 			}
+			c.Result(okA, rule, "addValidatorImpl:register", p.siteOf(w.Instr), shortFn(fn), "validatorRegistry[topic] = append(validatorRegistry[topic], validate)", why, "appended on every path")
 		}
 		c.Floor(rule, nreg, 1)
 	}
